@@ -308,11 +308,9 @@ Lemma bdict_new_rock g n : bdict (new_rock g n) = bdict g. Proof. reflexivity. Q
 Lemma clist_new_rock g n : clist (new_rock g n) = clist g. Proof. reflexivity. Qed.
 Lemma cdict_new_rock g n : cdict (new_rock g n) = cdict g. Proof. reflexivity. Qed.
 Lemma rn_new_block g n r : rn (new_block g n r) = rn g. Proof. reflexivity. Qed.
-Lemma cn_new_block g n r : cn (new_block g n r) = cn g. Proof. reflexivity. Qed.
 Lemma c0_new_block g n r : c0 (new_block g n r) = c0 g. Proof. reflexivity. Qed.
 Lemma c1_new_block g n r : c1 (new_block g n r) = c1 g. Proof. reflexivity. Qed.
 Lemma rname_new_block g n r : rname (new_block g n r) = rname g. Proof. reflexivity. Qed.
-Lemma bcn_new_block g n r : bcn (new_block g n r) = bcn g. Proof. reflexivity. Qed.
 Lemma cb0_new_block g n r : cb0 (new_block g n r) = cb0 g. Proof. reflexivity. Qed.
 Lemma cb1_new_block g n r : cb1 (new_block g n r) = cb1 g. Proof. reflexivity. Qed.
 Lemma rlist_new_block g n r : rlist (new_block g n r) = rlist g. Proof. reflexivity. Qed.
@@ -398,6 +396,8 @@ Lemma bn_new_block g n r i : bn (new_block g n r) i = if Pos.eqb i (next g) then
 Proof. apply fget_fset. Qed.
 Lemma br_new_block g n r i : br (new_block g n r) i = if Pos.eqb i (next g) then r else br g i.
 Proof. apply fget_fset. Qed.
+Lemma cn_new_block g n r i : cn (new_block g n r) i = if Pos.eqb i (next g) then [] else cn g i.
+Proof. apply fget_fset. Qed.
 Lemma next_new_block g n r : next (new_block g n r) = Pos.succ (next g). Proof. reflexivity. Qed.
 Lemma c0_new_conn g i0 i1 j : c0 (new_conn g i0 i1) j = if Pos.eqb j (next g) then i0 else c0 g j.
 Proof. apply fget_fset. Qed.
@@ -409,7 +409,7 @@ Proof. apply fget_fset. Qed.
 Lemma bdict_file_block g i : bdict (file_block g i) = aset str_eqb (bdict g) (bn g i) i. Proof. reflexivity. Qed.
 Lemma cdict_rebuild_cdict g : cdict (rebuild_cdict g) = fold_left (fun acc j => aset key2_eqb acc (ckey g j) j) (clist g) []. Proof. reflexivity. Qed.
 #[export] Hint Rewrite bn_new_rock br_new_rock cn_new_rock c0_new_rock c1_new_rock ckey_new_rock bname_new_rock brock_new_rock bcn_new_rock cb0_new_rock cb1_new_rock rlist_new_rock : gs.
-#[export] Hint Rewrite rdict_new_rock blist_new_rock bdict_new_rock clist_new_rock cdict_new_rock rn_new_block cn_new_block c0_new_block c1_new_block rname_new_block bcn_new_block cb0_new_block : gs.
+#[export] Hint Rewrite rdict_new_rock blist_new_rock bdict_new_rock clist_new_rock cdict_new_rock rn_new_block cn_new_block c0_new_block c1_new_block rname_new_block cb0_new_block : gs.
 #[export] Hint Rewrite cb1_new_block rlist_new_block rdict_new_block blist_new_block bdict_new_block clist_new_block cdict_new_block rn_new_conn bn_new_conn br_new_conn cn_new_conn rname_new_conn : gs.
 #[export] Hint Rewrite bname_new_conn brock_new_conn bcn_new_conn rlist_new_conn rdict_new_conn blist_new_conn bdict_new_conn clist_new_conn cdict_new_conn rn_cn_add bn_cn_add br_cn_add : gs.
 #[export] Hint Rewrite c0_cn_add c1_cn_add ckey_cn_add rname_cn_add bname_cn_add brock_cn_add cb0_cn_add cb1_cn_add rlist_cn_add rdict_cn_add blist_cn_add bdict_cn_add : gs.
@@ -418,6 +418,32 @@ Lemma cdict_rebuild_cdict g : cdict (rebuild_cdict g) = fold_left (fun acc j => 
 #[export] Hint Rewrite br_rebuild_cdict cn_rebuild_cdict c0_rebuild_cdict c1_rebuild_cdict ckey_rebuild_cdict rname_rebuild_cdict bname_rebuild_cdict brock_rebuild_cdict bcn_rebuild_cdict cb0_rebuild_cdict cb1_rebuild_cdict rlist_rebuild_cdict : gs.
 #[export] Hint Rewrite rdict_rebuild_cdict blist_rebuild_cdict bdict_rebuild_cdict clist_rebuild_cdict next_rebuild_cdict rn_new_rock next_new_rock bn_new_block br_new_block next_new_block c0_new_conn c1_new_conn : gs.
 #[export] Hint Rewrite next_new_conn cn_cn_add bdict_file_block cdict_rebuild_cdict : gs.
+
+(** ** the connection_name sets *)
+Lemma set_mem_In k s : set_mem k s = true <-> In k s.
+Proof.
+  unfold set_mem. rewrite existsb_exists. split.
+  - intros [y [H E]]. destruct (key2_spec k y); [subst; exact H|discriminate].
+  - intro H. exists k. split; [exact H|]. destruct (key2_spec k k); congruence.
+Qed.
+Lemma In_set_add s k x : In x (set_add s k) <-> In x s \/ x = k.
+Proof.
+  unfold set_add. destruct (set_mem k s) eqn:E.
+  - apply set_mem_In in E. split; [auto|]. intros [H| ->]; assumption.
+  - rewrite in_app_iff. cbn. intuition.
+Qed.
+Lemma In_set_del s k x : In x (set_del s k) <-> In x s /\ x <> k.
+Proof.
+  unfold set_del. rewrite filter_In. split; intros [H1 H2]; (split; [exact H1|]).
+  - intros ->. destruct (key2_spec k k); [discriminate|congruence].
+  - destruct (key2_spec k x); [congruence|reflexivity].
+Qed.
+Lemma In_set_of_list l x : In x (set_of_list l) <-> In x l.
+Proof.
+  unfold set_of_list. assert (G : forall acc, In x (fold_left set_add l acc) <-> In x acc \/ In x l).
+  { induction l as [|a r IH]; cbn; intro acc; [tauto|]. rewrite IH, In_set_add. intuition. }
+  rewrite G. cbn. tauto.
+Qed.
 
 Ltac gs := autorewrite with gs.
 Tactic Notation "gs" "in" hyp(H) := autorewrite with gs in H.
